@@ -40,6 +40,8 @@ type table struct {
 	nondet []string
 	// walking an assembled tree: file data starts behind the header the attributes call for
 	assembled bool
+	// oracle-only cases with payloads of 16 MiB: no tables are collected (only `payloads`)
+	lite bool
 }
 
 func (t *table) putEnc(k, v string) {
@@ -178,7 +180,7 @@ func (t *table) walkFv(fv *fuefi.FirmwareVolume) {
 }
 
 func (t *table) collectDecFile(f *fuefi.File) {
-	if f == nil {
+	if f == nil || t.lite {
 		return
 	}
 	off := f.DataOffset
@@ -227,6 +229,9 @@ func joinPad4(bufs [][]byte) []byte {
 // collectEncTree reads the encoder's answers off an assembled tree: the payload of every re-encoded
 // section is Encode(children joined with zero padding to 4).
 func (t *table) collectEncTree(f fuefi.Firmware) {
+	if t.lite {
+		return
+	}
 	switch f := f.(type) {
 	case *fuefi.FlashImage:
 		for _, r := range f.Regions {
